@@ -76,12 +76,15 @@ class Session:
 
 
 def via_files(d, kd, pt, route):
+    # the output directory is REUSED (a build directory is): the artifacts of the previous invocation are still there, and the
+    # firmware file is only rewritten when its content changes (same file, same time stamp for a repeated encryption)
     out = os.path.join(d, "o")
-    shutil.rmtree(out, ignore_errors=True)
-    os.makedirs(out)
+    os.makedirs(out, exist_ok=True)
     fw = os.path.join(d, "fw.bin")
-    with open(fw, "wb") as fh:
-        fh.write(pt)
+    if not os.path.exists(fw) or open(fw, "rb").read() != pt:
+        with open(fw, "wb") as fh:
+            fh.write(pt)
+        os.utime(fw, (1_600_000_000, 1_600_000_000))
     if route == "cli":
         ok, r = sut.cli_ok(["encrypt", "encrypt-and-generate", "--firmware", fw, "--key-name", "K", "--key-id", "7", "--context", kd, "--output-dir", out,
                             "--kms-script", sut.KMS_SCRIPT(), "--encrypt-script", sut.ENCRYPT_SCRIPT()], d)
